@@ -50,7 +50,15 @@ Depth2  ==
   \cup {LstT(<<d>>, V("$T")) : d \in D1S}
 Depth3  == {Cx("f", <<Cx("g", <<d, a>>)>>) : d \in D1S} \cup {Lst(<<Lst(<<d>>), a>>) : d \in D1S}
            \cup {Cx("g", <<Lst(<<a, d>>), Cx("f", <<d>>)>>) : d \in D1S}
-TermU == Leaves \cup Depth1 \cup Depth2 \cup (IF Thorough THEN Depth3 ELSE {})
+(* thorough: every depth-1 term in every argument / element position of a depth-2 term *)
+Depth2T ==
+       {Cx("f", <<d>>) : d \in Depth1} \cup {Cx("g", <<d, s>>) : d \in Depth1, s \in LeavesS}
+  \cup {Cx("g", <<s, d>>) : d \in Depth1, s \in LeavesS}
+  \cup {Lst(<<d>>) : d \in Depth1} \cup {Lst(<<s, d>>) : d \in Depth1, s \in LeavesS}
+  \cup {Lst(<<d, s>>) : d \in Depth1, s \in LeavesS} \cup {LstT(<<d>>, tl) : d \in Depth1, tl \in Tails}
+  \cup {LstT(<<s, d>>, V("$T")) : d \in Depth1, s \in LeavesT}
+  \cup {Cx("triple", <<s, d, s2>>) : d \in D1S, s \in LeavesT, s2 \in LeavesT}
+TermU == Leaves \cup Depth1 \cup Depth2 \cup (IF Thorough THEN Depth3 \cup Depth2T ELSE {})
 
 (* texts that are terms of the language but not canonical prints (C20 only)     *)
 RawTexts == {"-5", "+7", "-2.5", "+0.5", "\\,", "?", "!", "\"quoted text\"", "\"a, b\"", "f(-5)", "[-5, 7]"}
@@ -84,10 +92,16 @@ Disjs  ==   {OrG(<<g1, g2>>) : g1 \in SimpleS, g2 \in SimpleS}
        \cup {OrG(<<g1, g2>>) : g1 \in ConjsS, g2 \in SimpleS} \cup {OrG(<<g1, g2>>) : g1 \in SimpleS, g2 \in ConjsS}
        \cup {OrG(<<g1, g2>>) : g1 \in ConjsS, g2 \in ConjsS}
        \cup {OrG(<<g1, g2, g3>>) : g1 \in ConjsS, g2 \in {Call(Cx("p", <<V("$X")>>))}, g3 \in ConjsS}
-GoalU == Simple \cup Conjs \cup Disjs
+(* thorough: all conjunctions of three simple goals, disjunctions of two and three conjunctions, every call shape *)
+ConjsT == {AndG(<<g1, g2, g3>>) : g1 \in SimpleS, g2 \in SimpleS, g3 \in SimpleS}
+          \cup {AndG(<<g1, g2>>) : g1 \in Calls, g2 \in SimpleS}
+ConjsM == {AndG(<<g1, g2>>) : g1 \in SimpleS, g2 \in {Call(Cx("q", <<a, V("$Y")>>)), FailG, CutG, Bip("print", <<V("$X")>>)}}
+DisjsT == {OrG(<<g1, g2>>) : g1 \in ConjsM, g2 \in ConjsM} \cup {OrG(<<g1, g2, g3>>) : g1 \in ConjsS, g2 \in SimpleS, g3 \in ConjsS}
+          \cup {OrG(<<g1, g2, g3>>) : g1 \in SimpleS, g2 \in SimpleS, g3 \in SimpleS}
+GoalU == Simple \cup Conjs \cup Disjs \cup (IF Thorough THEN ConjsT \cup DisjsT ELSE {})
 Heads == {Cx("h", <<V("$X")>>), Cx("h", <<V("$X"), Lst(<<V("$Y")>>)>>), Cx("h", <<a, IntT(7)>>), Cx("h", <<>>)}
 BodiesR == SimpleS \cup ConjsS \cup {OrG(<<g1, g2>>) : g1 \in ConjsS, g2 \in ConjsS} \cup {AndG(<<g1, g2, g3>>) : g1 \in SimpleS, g2 \in {CutG}, g3 \in SimpleS}
-RuleU == {Clause(h, bd) : h \in Heads, bd \in BodiesR} \cup {Fact(h) : h \in Heads}
+RuleU == {Clause(h, bd) : h \in Heads, bd \in BodiesR \cup (IF Thorough THEN Simple \cup Conjs ELSE {})} \cup {Fact(h) : h \in Heads}
          \cup {Fact(Cx("p", <<s>>)) : s \in Args1} \cup {Fact(Cx("mother", <<Atom("June"), Atom("The Beaver")>>))}
          \cup {Clause(Cx("{U+0433}{U+043E}{U+0440}{U+043E}{U+0434}", <<V("$X")>>), g) : g \in {UnifyG(Atom("{U+6E0B}{U+8C37}"), V("$X")), AndG(<<Call(Cx("size", <<V("$S")>>)), UnifyG(Atom("{U+6E0B}{U+8C37}"), V("$X"))>>),
                                                      Bip("less_than", <<Atom("{U+00E9}t{U+00E9}"), V("$X")>>)}}
